@@ -36,7 +36,7 @@ type concCase struct {
 }
 
 const concHeader = `From Coq Require Import List NArith Bool.
-From GS Require Import Base Ltree RecLoader ReqExec Concurrent.
+From GS Require Import Base Ltree RecLoader ReqExec Concurrent ConcurrentGen.
 Import ListNotations.
 Open Scope N_scope.
 `
